@@ -1,4 +1,5 @@
 import MdkVerif.Model.Client
+import MdkVerif.Model.Handled
 /- helper lemmas about Model.Client: what each building block changes -/
 namespace MdkVerif.Client
 open MdkVerif
@@ -117,5 +118,7 @@ theorem notBetterResult_proj (c : Cl) (e : Ev) (h : Synced c.g) : proj (notBette
     · exact returnOwnCommit_proj c h
     · rfl
   · rfl
+
+-- C07's predicates `handledInner` / `handled` / `known` are executable and live in Model/Handled.lean (the driver evaluates them)
 
 end MdkVerif.Client
